@@ -81,6 +81,13 @@ def gen_cases(tier, seed):
                                 rate={"SGD": 0.2, "Adam": 1.0, "Adagrad": 2.0}[solver] * float(rng.choice([0.5, 1.0, 2.0])), max_fails=3,
                                 epoch_iters=int(rng.integers(1, 4)), max_iters=8, R=int(rng.integers(1, 3)), via_gcp_opt=bool(i % 6 == 0), f_est_tol=tolk,
                                 sampler=smp, failing=True)
+    # line searches limited to a single trial (most are abandoned: the last point evaluated is then usually worse than the start)
+    rngl = gen.rng_for(seed, ID, tier, "maxls-1")
+    for i in range(24 if tier == "quick" else 160):
+        shape = [int(s) for s in rngl.integers(2, 5, size=3)]
+        loss, par = losses[0] if i % 2 == 0 else losses[1 + (i // 2) % 3]          # (every other one least squares: real-valued data of both signs)
+        yield C(w="lbfgsb", shape=shape, loss=loss, par=par, R=2, maxiter=int(rngl.integers(1, 6)), masked=bool(i % 6 == 5),
+                maxls=1, via_gcp_opt=bool(i % 2), mask_form=["ndarray", "tensor"][(i // 2) % 2])
     # caller-supplied bounds of either sign under every stochastic solver, directly and through gcp_opt (own random stream)
     rngb = gen.rng_for(seed, ID, tier, "custom-bound")
     for rep in range(1 if tier == "quick" else 8):
@@ -493,28 +500,9 @@ def _w_lbfgsb(case, ctx, rng):
     f0 = evaluate(M0, X, mask, fh, None)
     f1 = evaluate(M, X, mask, fh, None)
     ctx.check(f1 <= f0 + 1e-10 * max(1.0, abs(f0)), "LBFGSB.solve", "WORSE-THAN-START", f"objective of the result {f1!r} > start {f0!r}")
-    if True:
-        # (also through gcp_opt with the objective given as (function, gradient, lower bound) and the start as `init`: the same solve)
-        # differential oracle: the returned model is the final iterate of SciPy's L-BFGS-B on the same objective (exact objective and
-        # gradient of the library, flattened factor by factor) from the same start with the same options -- not merely "some point the
-        # solver evaluated"
-        from scipy.optimize import fmin_l_bfgs_b
-
-        # (gcp_opt balances the start it is given across the factors first and hands that start back: the solve begins there)
-        Ms = r.value[1].copy() if via else M0
-        Mw = Ms.copy()
-        N_ = len(shape)
-
-        def fg(x):
-            Mw.update(np.arange(N_), x)
-            F_, G_ = evaluate(Mw, X, mask, fh, gh)
-            return F_, ttb.ktensor(G_, copy=False).tovec(False)
-        x0 = Ms.tovec(False).copy()
-        xr, fr, ir = fmin_l_bfgs_b(fg, x0, fprime=None, approx_grad=False, bounds=[(lb, np.inf)] * len(x0), maxiter=case["maxiter"], callback=lambda xk: None, **kwls)
-        got = M.tovec(False)
-        sc_ = max(1.0, float(np.max(np.abs(xr))))
-        ctx.check(bool(np.max(np.abs(got - xr)) <= 1e-9 * sc_), "LBFGSB.solve", "NOT-THE-FINAL-ITERATE",
-                  lambda: f"returned factors differ from the final iterate of the same L-BFGS-B run by {np.max(np.abs(got - xr)):.3e} (objective {f1!r} vs {fr!r})")
+    # (no differential comparison with SciPy's own run: the property promises "never a higher objective than at the start", not which
+    # iterate of which termination rule is returned; line searches that are abandoned at once - maxls=1, where a model left at the last
+    # trial point is usually worse than the start - are a fixed family instead)
     if mask is not None and bool((mask == 0).any()):
         # entries declared missing carry no information: other (domain-valid, wildly different) values stored there change nothing
         X2d = Xd.copy()
